@@ -21,9 +21,18 @@ build() { # $1 = output name, extra flags follow
 
 needs_race() { case "$1" in C10|C16) return 0;; *) return 1;; esac; }
 
+# the same harness + library as a 32-bit binary (GOARCH=386, no cgo): a sample of every check's cases is
+# re-run in it. If this toolchain cannot build or run 386 binaries the pass is skipped (reported as a note).
+build386() { # $1 = output
+  ( cd "$HARNESS" && GOARCH=386 CGO_ENABLED=0 go build -tags verif -o "$1.tmp.$$" ./cmd/lwmon ) 2> "$1.log" || return 1
+  mv -f "$1.tmp.$$" "$1"
+  "$1" list > /dev/null 2>&1
+}
+
 if [ "${1:-}" = "--build" ]; then
   build "$BIN/lwmon" || { echo "BUILD FAILED"; exit 2; }
   build "$BIN/lwmon-race" -race || { echo "RACE BUILD FAILED"; exit 2; }
+  build386 "$BIN/lwmon-386" || echo "note: no GOARCH=386 binary (32-bit pass will be skipped)"
   echo "build ok"
   exit 0
 fi
@@ -47,12 +56,22 @@ if needs_race "$ID"; then
   RACEARGS=(-racebin "$BIN/$ID/lwmon-race")
 fi
 
+ARCHARGS=()
+if [ "${VERIF_NO386:-0}" != 1 ] && build386 "$BIN/$ID/lwmon-386"; then
+  ARCHARGS=(-bin386 "$BIN/$ID/lwmon-386")
+else
+  echo "NOTE: GOARCH=386 binary not available; the 32-bit pass is skipped"
+fi
+
 if [ "$MODE" = "--replay" ]; then
   FILE="${3:?replay file}"
+  if grep -q '"arch": "386"' "$FILE" && [ ${#ARCHARGS[@]} -gt 0 ]; then
+    exec "$BIN/$ID/lwmon-386" replay -file "$FILE"
+  fi
   if needs_race "$ID" && grep -q '"race": true' "$FILE"; then
     exec "$BIN/$ID/lwmon-race" replay -file "$FILE"
   fi
   exec "$BIN/$ID/lwmon" replay -file "$FILE"
 fi
 
-exec "$BIN/$ID/lwmon" run -prop "$ID" -tier "$MODE" -root "$ROOT" "${RACEARGS[@]}"
+exec "$BIN/$ID/lwmon" run -prop "$ID" -tier "$MODE" -root "$ROOT" "${RACEARGS[@]}" "${ARCHARGS[@]}"
